@@ -12,6 +12,7 @@ package main
 import (
 	"bytes"
 	"context"
+	"errors"
 	"flag"
 	"fmt"
 	"net/url"
@@ -600,6 +601,97 @@ func raceEncRot(h *raceH, p *prng, rounds int) {
 	h.st.hit("encrot:rounds")
 }
 
+// ---- reopen: overlapping Reopen calls (C20) ----
+
+type roNode struct {
+	ty   eventlogger.NodeType
+	n    int32
+	fail error
+	park *int32        // 1: the next Reopen to arrive parks here
+	gate chan struct{} // ... until this is closed
+	inCh chan struct{} // signalled when a call has parked
+}
+
+func (r *roNode) Process(ctx context.Context, e *eventlogger.Event) (*eventlogger.Event, error) {
+	if r.ty == eventlogger.NodeTypeSink {
+		return nil, nil
+	}
+	return e, nil
+}
+func (r *roNode) Type() eventlogger.NodeType { return r.ty }
+func (r *roNode) Reopen() error {
+	atomic.AddInt32(&r.n, 1)
+	if r.park != nil && atomic.CompareAndSwapInt32(r.park, 1, 0) {
+		r.inCh <- struct{}{}
+		<-r.gate
+	}
+	return r.fail
+}
+
+// every Reopen call reopens every node of every registered pipeline and reports a failing node --
+// also a call that overlaps another Reopen still walking the pipelines
+func raceReopen(h *raceH, p *prng, rounds int) {
+	ctx := context.Background()
+	for r := 0; r < rounds; r++ {
+		b, _ := eventlogger.NewBroker()
+		var park int32 = 1
+		gate := make(chan struct{})
+		inCh := make(chan struct{}, 1)
+		boom := errors.New("reopen failed")
+		failing := p.intn(3) == 0
+		nodes := map[string]*roNode{}
+		for _, id := range []string{"f1", "s1", "f2", "s2"} {
+			ty := eventlogger.NodeTypeFormatter
+			if id[0] == 's' {
+				ty = eventlogger.NodeTypeSink
+			}
+			n := &roNode{ty: ty, park: &park, gate: gate, inCh: inCh}
+			if failing && id == "s2" {
+				n.fail = boom
+			}
+			nodes[id] = n
+			b.RegisterNode(eventlogger.NodeID(id), n)
+		}
+		b.RegisterPipeline(eventlogger.Pipeline{PipelineID: "p", EventType: "t1", NodeIDs: []eventlogger.NodeID{"f1", "s1"}})
+		b.RegisterPipeline(eventlogger.Pipeline{PipelineID: "p", EventType: "t2", NodeIDs: []eventlogger.NodeID{"f2", "s2"}})
+		first := make(chan error, 1)
+		go func() { first <- b.Reopen(ctx) }()
+		select {
+		case <-inCh:
+		case <-time.After(2 * time.Second):
+			h.oracle("C20 Reopen did not reach any node within 2s")
+			close(gate)
+			continue
+		}
+		// the first call is parked inside a node's Reopen: the second call does all the work itself
+		before := map[string]int32{}
+		for id, n := range nodes {
+			before[id] = atomic.LoadInt32(&n.n)
+		}
+		err := b.Reopen(ctx)
+		for id, n := range nodes {
+			// (a walk that meets a failing node may stop there: every node only when nothing fails)
+			if !failing && atomic.LoadInt32(&n.n) == before[id] {
+				h.oracle("C20 a Reopen call that overlapped another one returned %v without reopening node %s", err, id)
+				break
+			}
+		}
+		if failing && !errors.Is(err, boom) {
+			h.oracle("C20 node s2 failed to reopen but the overlapping Reopen call returned %v", err)
+		}
+		if !failing && err != nil {
+			h.oracle("C20 Reopen returned %v although no node failed", err)
+		}
+		close(gate)
+		if e1 := <-first; failing != (e1 != nil) {
+			h.oracle("C20 the first of two overlapping Reopen calls returned %v, failing node=%v", e1, failing)
+		}
+		h.st.Cases++
+		h.st.Ops += 2
+	}
+	h.st.hit("reopen:rounds")
+}
+
 func raceMain(args []string) {
 	fs := flag.NewFlagSet("race", flag.ExitOnError)
 	seed := fs.Uint64("seed", 1, "seed")
@@ -628,6 +720,8 @@ func raceMain(args []string) {
 			raceGated(h, p, *rounds*2)
 		case "encrot":
 			raceEncRot(h, p, *rounds*4)
+		case "reopen":
+			raceReopen(h, p, *rounds*4)
 		}
 		st.hit("scenario:" + s)
 	}
